@@ -12,7 +12,7 @@ import time
 import z3
 
 from vlib import env
-from vlib.zrun import explore_and_prove, all_eq, concretize, pyrepr, eq_term
+from vlib.zrun import twin_verdict, explore_and_prove, all_eq, concretize, pyrepr, eq_term
 from vlib.zsym import Int, Real, Sym, SymNum, sym_int, model_value
 
 META = {
@@ -262,7 +262,7 @@ def task_single(patterns, keys, lo, hi, checks, label, seed=0):
         res["violations"] += _viol(o, "rate", [rx], [k], conc, ask, None, checks, "single")
         if tw is None and pattern[0] and pattern[2]:
             ot, _ = ob_single(pattern, keys, lo, hi, checks, seed, twin=True)
-            tw = "violated" if ot.failed else "passed"
+            tw = twin_verdict(ot)
     res["twin"] = tw or "n/a"
     res["sample"] = {"pattern(reac,prod,inact_reac,inact_prod)": patterns[0], "keys": keys, "coefficients": "symbolic %d..%d" % (lo, hi)}
     res["status"] = "violation" if res["violations"] else ("inconclusive" if res["inconclusive"] else "discharged")
@@ -374,7 +374,7 @@ def task_system(pattern_sets, keys, lo, hi, label, seed=0):
         res["violations"] += _viol(o, "rates", rxs, ks, conc, keys, cstr, (), "system")
         if tw is None and any(pt[0] or pt[1] for pt in patterns):
             ot, _ = ob_system(patterns, keys, lo, hi, cstr_keys, twin=True)
-            tw = "violated" if ot.failed else "passed"
+            tw = twin_verdict(ot)
     res["twin"] = tw or "n/a"
     res["sample"] = {"reactions(reac,prod,inact_reac,inact_prod key sets)": pattern_sets[0], "keys": keys,
                      "coefficients": "symbolic %d..%d" % (lo, hi), "also": "CSTR feed, array route, reversed order, 6 stoichiometry matrices"}
